@@ -172,7 +172,7 @@ func c07Uncovered() []string {
 }
 
 // c07Setup opens an engine with data in every layer: 2 level-0 files, an immutable table waiting for flush, an active table.
-func c07Setup(dir string, controlled bool) (*c07Env, func(), error) {
+func c07Setup(dir string, controlled bool, post bool) (*c07Env, func(), error) {
 	cfg := EngCfg{"c07", 32 << 20, 2, 0, 0}
 	r, err := newEngRun(dir, cfg)
 	if err != nil {
@@ -203,6 +203,13 @@ func c07Setup(dir string, controlled bool) (*c07Env, func(), error) {
 			time.Sleep(time.Millisecond)
 		}
 	}
+	if post {
+		// history: one completed compaction cycle (its result is recorded) before the calls start
+		r.Eng.TriggerCompaction()
+		if controlled {
+			vsched.Quiesce()
+		}
+	}
 	r.Eng.Put([]byte("a"), []byte("a1"))
 	sm.VerifSwitch() // leaves an immutable table and a pending flush signal: the background thread is live
 	r.Eng.Put([]byte("b"), []byte("b1"))
@@ -212,6 +219,7 @@ func c07Setup(dir string, controlled bool) (*c07Env, func(), error) {
 type c07Group struct {
 	Name   string
 	Bodies []c07Body
+	Post   bool // the engine has completed a compaction cycle before the calls start
 }
 
 func c07Groups() []c07Group {
@@ -259,6 +267,19 @@ func c07Groups() []c07Group {
 		}
 		gs = append(gs, g)
 	}
+	// the statistics and maintenance entry points again on an engine that has a compaction behind it
+	for _, t := range [][]string{
+		{"Engine.GetCompactionStats", "Engine.GetCompactionStats"},
+		{"Engine.GetCompactionStats", "Engine.TriggerCompaction"},
+		{"Engine.GetStats", "Engine.GetCompactionStats"},
+		{"Engine.GetCompactionStats", "Engine.CompactRange"},
+	} {
+		g := c07Group{Name: "post-compaction:" + strings.Join(t, "||"), Post: true}
+		for _, n := range t {
+			g.Bodies = append(g.Bodies, byName[n])
+		}
+		gs = append(gs, g)
+	}
 	return gs
 }
 
@@ -266,7 +287,7 @@ func c07Scenario(g c07Group) *explore.Scenario {
 	return &explore.Scenario{Name: g.Name, MaxSteps: 3_000_000,
 		Body: func() any {
 			dir := filepath.Join(fw.ProcDir("c07"), "db")
-			x, closeFn, err := c07Setup(dir, true)
+			x, closeFn, err := c07Setup(dir, true, g.Post)
 			if err != nil {
 				return "open: " + err.Error()
 			}
@@ -327,7 +348,7 @@ func c07RaceUnit(unit string, env *fw.Env) *fw.Result {
 			break
 		}
 		fw.Progress(fmt.Sprintf("free-running race pass, group %s iteration %d", name, it))
-		x, closeFn, err := c07Setup(dir, false)
+		x, closeFn, err := c07Setup(dir, false, g.Post)
 		if err != nil {
 			res.Violate(fw.FP("C07", "open-failed"), "open failed: "+err.Error(), unit, map[string]any{"kind": "race-pass", "group": name})
 			return res
@@ -384,7 +405,7 @@ func init() {
 	fw.Register(&fw.Check{
 		ID:    "C07",
 		Level: "model_checking",
-		Rule: "entry points are taken from the method sets of *EngineFacade, interfaces.Transaction, interfaces.CompactionManager and stats.Collector (reflection; a method with neither a body nor a recorded exclusion is a HARNESS-ERROR). For every unordered pair of the 22 engine-level bodies (incl. a body with itself), every pair of the 7 transaction methods on one shared transaction, transaction methods against engine traffic, and 4 triples, on an engine with 2 level-0 files, an immutable table with a pending flush and a live background flush thread: pass 1 = all interleavings with <=1 deviation (2 thorough) under the controlled scheduler; deadlock, livelock, panic, step horizon or an unusable engine is a violation (witness: blocked threads and call sites). plus a burst of 4 writes on a 1-byte memtable (every write switches the table and wakes the background flush) with <=2 (3) deviations. pass 3 = the same bodies free-running in a -race build, 5 (60) iterations per group; a race report, panic, fatal error or a call that does not return within 60 s is a violation. Non-trivial = executions with a cross-thread conflict / completed iterations",
+		Rule: "entry points are taken from the method sets of *EngineFacade, interfaces.Transaction, interfaces.CompactionManager and stats.Collector (reflection; a method with neither a body nor a recorded exclusion is a HARNESS-ERROR). For every unordered pair of the 22 engine-level bodies (incl. a body with itself), every pair of the 7 transaction methods on one shared transaction, transaction methods against engine traffic, 4 triples and 4 statistics/maintenance pairs on an engine that has already completed a compaction cycle, on an engine with 2 level-0 files, an immutable table with a pending flush and a live background flush thread: pass 1 = all interleavings with <=1 deviation (2 thorough) under the controlled scheduler; deadlock, livelock, panic, step horizon or an unusable engine is a violation (witness: blocked threads and call sites). plus a burst of 4 writes on a 1-byte memtable (every write switches the table and wakes the background flush) with <=2 (3) deviations. pass 3 = the same bodies free-running in a -race build, 5 (60) iterations per group; a race report, panic, fatal error or a call that does not return within 60 s is a violation. Non-trivial = executions with a cross-thread conflict / completed iterations",
 		Assumptions: []string{"data races are decided by the Go race detector on free-running executions of the same bodies (sampled schedules); the exhaustive pass covers deadlock, livelock, panics and non-returning calls", "Close concurrent with other calls is out of scope"},
 		Units: func(tier string) []string {
 			var us []string
